@@ -38,6 +38,8 @@ def fingerprint(rj):
         return "%s: %s ends as %s, not reachable in the model (last wire event %s)" % (acceptor, rec.get("peer"), rec.get("state"), ctx)
     if ev == "pdu":
         return "%s: %s puts %s on the wire where the model allows none (after %s)" % (acceptor, rec.get("from"), rec.get("kind"), ctx)
+    if ev == "stuck":
+        return "%s: %s never closes its connection (after %s)" % (acceptor, rec.get("by"), ctx)
     if ev == "closed":
         return "%s: %s closes the connection in a state where the model cannot (after %s)" % (acceptor, rec.get("by"), ctx)
     return "%s: event %s" % (acceptor, ev)
@@ -99,7 +101,7 @@ def run(ctx):
     with open(lib_trace, "w") as allf:
         for api in ("sync", "async"):
             t = ctx.path("lib_%s.ndjson" % api)
-            args = ["lib", "--schedules", sched if api == "sync" else sched_async, "--random", (200 if q else 3000) if api == "sync" else (60 if q else 1000),
+            args = ["lib", "--schedules", sched if api == "sync" else sched_async, "--random", (1000 if q else 8000) if api == "sync" else (300 if q else 2000),
                     "--jobs", 8, "--out", t]
             if api == "async":
                 args.append("--async")
